@@ -789,11 +789,14 @@ func (g *genState) genMethod(idx int) Method {
 			// conversion, a source or a converter that also yields an error below a conversion / String() call
 			shapes := [][2]string{{"localPtrConv", "Calc()"}, {"localPtrConv", "PtrCalc()"}, {"localPtrConv64", "SpareInt"}, {"localPtrConv", "SpareInt"},
 				{"localPtrConv", "NestV.A"}, {"localPtrConv", "Nest.A"}, {"localConvErr3", "SpareInt"}, {"localConvErr", "SpareInt"}, {"localConv", "Risky()"},
-				{"ext.Atoi", "Risky()"}, {"ext.PtrLen", "SpareStr"}, {"ext.PtrLen", "Who.Name()"}, {"ext.PtrLen", "NestV.C"}}
+				{"ext.Atoi", "Risky()"}, {"ext.lower", "SpareStr"}, {"ext.lower", "Who.Nick"}, {"ext.PtrLen", "SpareStr"}, {"ext.PtrLen", "Who.Name()"}, {"ext.PtrLen", "NestV.C"}}
 			if g.opt.ErrorBias {
 				shapes = shapes[6:8]
 			}
 			sh := shapes[g.rng.Intn(len(shapes))]
+			if g.opt.WellFormed && sh[0] == "ext.lower" {
+				sh = shapes[0] // an unexported function of another package is not of an acceptable shape
+			}
 			m.Notations = append(m.Notations, ":conv "+sh[0]+" "+sh[1]+" "+path)
 			m.Features = append(m.Features, "conv-edge-shape")
 		case 0:
